@@ -348,6 +348,23 @@ def equivalence(pp):
                            f"create_solution([nacl, na2so4], concentration=[{c1!r}, {c2!r}]) gives {outs[0]} but the same request "
                            f"with the two solutes listed in the other order gives {outs[1]}", {'parser': 'equivalence'},
                            outs[0], outs[1]))
+    # per-solute quantities: the same string for two solutes means the same as two equivalent spellings of it, and as the one
+    # string given once for all
+    for q1, q2 in (('5 g', '5000 mg'), ('2 mL', '2000 uL'), ('30 mmol', '0.03 mol')):
+        outs = []
+        for qs in ([q1, q2], [q1, q1], q1):
+            n += 1
+            try:
+                outs.append(_contents(C.create_solution([nacl, so4] if not q1.endswith('L') else [dmso, subs['tea']], water, 'x',
+                                                        quantity=qs, total_quantity='500 mL'), pp))
+            except Exception as e:  # noqa
+                outs.append('raises ' + type(e).__name__)
+        for form_, o in (('the same string twice', outs[1]), ('one string for all solutes', outs[2])):
+            same = (o == outs[0]) if isinstance(o, str) or isinstance(outs[0], str) else _same(o, outs[0])
+            if not same:
+                viols.append(V("create_solution | spelling-not-equivalent | per-solute-quantities",
+                               f"create_solution of two solutes with quantity=[{q1!r}, {q2!r}] gives {outs[0]}, with {form_} ({q1!r}) "
+                               f"{o}", {'parser': 'equivalence'}, outs[0], o))
     src = C('src', initial_contents=[(water, '50 mL'), (nacl, '100 mmol')])
     dst = C('dst', '100 mL')
     for cls in QTY_CLASSES:
